@@ -340,6 +340,95 @@ theorem sync_async_agree {μ δ ρ : Type} (T : Tables) (n : Naming) (ops : MsgO
   unfold runCall
   simp only [hm, this]
 
+/-! ## Channel identity: several transports of one service in one process -/
+
+section Channels
+
+theorem lookup_getStub_self (cache : StubCache) (k : Str) (chan : Nat) :
+    (getStub cache k chan).1.lookup k = some (getStub cache k chan).2 := by
+  unfold getStub
+  cases h : cache.lookup k with
+  | some c => simp [h]
+  | none => simp [List.lookup]
+
+theorem getStub_preserves (cache : StubCache) (k k' : Str) (chan c : Nat) (h : cache.lookup k' = some c) :
+    (getStub cache k chan).1.lookup k' = some c := by
+  unfold getStub
+  cases hk : cache.lookup k with
+  | some _ => simpa using h
+  | none =>
+    by_cases e : k' = k
+    · subst e; simp [h] at hk
+    · simp [List.lookup, h]
+      have : (k' == k) = false := by simpa using e
+      simp [this]
+
+theorem prepCache_preserves (keys : List Str) (cache : StubCache) (k' : Str) (chan c : Nat)
+    (h : cache.lookup k' = some c) : (prepCache cache keys chan).lookup k' = some c := by
+  induction keys generalizing cache with
+  | nil => simpa [prepCache] using h
+  | cons k r ih =>
+    simp only [prepCache, List.foldl_cons]
+    exact ih _ (getStub_preserves cache k k' chan c h)
+
+/-- every binding of a cache filled from empty on `chan` points to `chan` -/
+theorem prepCache_all_own (keys : List Str) (cache : StubCache) (chan : Nat)
+    (h : ∀ p ∈ cache, p.2 = chan) : ∀ p ∈ prepCache cache keys chan, p.2 = chan := by
+  induction keys generalizing cache with
+  | nil => simpa [prepCache] using h
+  | cons k r ih =>
+    simp only [prepCache, List.foldl_cons]
+    apply ih
+    unfold getStub
+    cases hk : cache.lookup k with
+    | some _ => simpa using h
+    | none =>
+      intro p hp
+      rcases List.mem_cons.mp hp with rfl | hp
+      · rfl
+      · exact h p hp
+
+theorem lookup_mem {cache : StubCache} {k : Str} {c : Nat} (h : cache.lookup k = some c) : (k, c) ∈ cache := by
+  induction cache with
+  | nil => simp [List.lookup] at h
+  | cons p r ih =>
+    obtain ⟨a, v⟩ := p
+    simp only [List.lookup] at h
+    split at h
+    · rename_i heq
+      have : k = a := by simpa using heq
+      simp at h; subst h; subst this; exact List.mem_cons_self ..
+    · exact List.mem_cons_of_mem _ (ih h)
+
+/-- **Calls go to the transport's own channel**: a transport constructed as `__init__` does it
+(fresh `_stubs`, every stub property evaluated on its own channel) issues every call through ANY key on
+its own channel — whatever other transports of the same service exist in the process, since nothing
+of them enters `initTransport`. -/
+theorem calls_go_to_own_channel (keys : List Str) (chan : Nat) (k : Str) :
+    callChannel (initTransport keys chan) k chan = chan := by
+  unfold callChannel getStub
+  cases h : (initTransport keys chan).lookup k with
+  | none => rfl
+  | some c =>
+    have := prepCache_all_own keys [] chan (by simp) (k, c) (lookup_mem h)
+    simpa using this
+
+/-- what the per-instance `self._stubs = {}` is for: a transport that fills a cache INHERITED from
+an earlier transport (the class-level dict) calls on the EARLIER transport's channel. -/
+theorem shared_stub_cache_counterexample :
+    let keys := [['g', 'e', 't'], ['p', 'u', 't']]
+    let first := initTransport keys 1                 -- transport #1 on channel 1
+    let second := prepCache first keys 2               -- transport #2 on channel 2, same dict
+    callChannel second ['g', 'e', 't'] 2 = 1 ∧ callChannel (initTransport keys 2) ['g', 'e', 't'] 2 = 2 := by decide
+
+/-- in general: a binding already in an inherited cache survives the second construction -/
+theorem inherited_binding_wins (keys : List Str) (cache : StubCache) (k : Str) (c chan : Nat)
+    (h : cache.lookup k = some c) : callChannel (prepCache cache keys chan) k chan = c := by
+  unfold callChannel getStub
+  simp [prepCache_preserves keys cache k chan c h]
+
+end Channels
+
 /-! ## Finite facts about the pinned tables (bridged to /repo by T1) -/
 
 /-- the three transport-unsafe names get a suffix and no longer shadow the members defined
